@@ -88,6 +88,43 @@ def sweep(tier, seed):
             if bool(res) != before or before != all(verdicts):
                 fails.append({'input': {'summary_of': what, 'verdicts': list(verdicts), 'then': 'classify[status] read for every status'},
                               'observed': f'verdict {before} before and {bool(res)} after looking at the lists', 'expected': f'{all(verdicts)} both times'})
+    # a summary test can be evaluated again, and looked at (fingerprint) before it is evaluated: same classification each time
+    from valjean.fingerprint import fingerprint
+    for verdicts in ((True, False), (True, True)):
+        rs = [Tst(f't{i}', ok, {'x': f'x{i}'}).evaluate() for i, ok in enumerate(verdicts)]
+        trs = [('task0', {'result': rs}), ('lonely', {'status': TaskStatus.FAILED})]
+        tks = [(f'task{i}', {'status': TaskStatus.DONE if ok else TaskStatus.FAILED}) for i, ok in enumerate(verdicts)]
+        makers = {'tests': lambda: TestStatsTests(name='s', task_results=list(trs)), 'by_labels': lambda: TestStatsTestsByLabels(name='b', task_results=list(trs), by_labels=('x',)),
+                  'tasks': lambda: TestStatsTasks(name='k', task_results=list(tks))}
+        for what, mk in makers.items():
+            n += 1
+
+            def image(res):
+                c = res.classify
+                if isinstance(c, dict):
+                    return (bool(res), sorted((getattr(k, 'name', str(k)), len(v)) for k, v in c.items() if v))
+                return (bool(res), [(tuple(d['labels']), d['OK'], d['KO']) for d in c])
+            try:
+                ref = image(mk().evaluate())
+                t2 = mk()
+                first, second = image(t2.evaluate()), image(t2.evaluate())
+                t3 = mk()
+                fp_before = fingerprint(t3)
+                after_look = image(t3.evaluate())
+                fp_after = fingerprint(t3)
+            except Exception as e:      # noqa
+                fails.append({'input': {'summary_of': what, 'verdicts': list(verdicts), 'then': 'evaluate twice / fingerprint then evaluate'}, 'observed': f'raised {e!r}',
+                              'expected': 'the same summary each time'})
+                continue
+            probs = []
+            if first != ref or second != ref:
+                probs.append(f'evaluating the same test twice gives {first} then {second} (a fresh test gives {ref})')
+            if after_look != ref:
+                probs.append(f'taking the fingerprint of the test before evaluating it changes the summary: {after_look} instead of {ref}')
+            if fp_before != fp_after:
+                probs.append('the fingerprint of the test differs before and after its evaluation')
+            if probs:
+                fails.append({'input': {'summary_of': what, 'verdicts': list(verdicts)}, 'observed': probs[:3], 'expected': 'the summary does not depend on what was looked at or evaluated before'})
     # reserved label names used as ordinary labels must not disturb the classification by verdict
     reserved = [{'_result': 'whatever'}, {'_result': 0}, {'_test_name': 'n'}, {'_result': 1, '_test_name': 'n'}]
     selections = [('x',), ('y',), ('x', 'y'), ('y', 'x')]
@@ -177,7 +214,7 @@ def sweep(tier, seed):
                 fails.append({'input': {'reserved_label': repr(extra), 'verdicts': [ok1, ok2]}, 'observed': f'{bl.classify}, bool = {bool(bl)}', 'expected': repr(want)})
     return {'name': 'diagnostic-statistics-native', 'evaluations': n, 'distinct': n, 'failures': fails[:8], 'exhaustive': True,
             'bound': f'all task-status lists of length <= {nmax}; all lists of <= {2 if tier == "quick" else 3} test results with verdict in {{T, F}} and labels x, y in '
-                     '{absent, 0, 1}, split over 1 or 2 tasks, with / without a task lacking results; label selections (x), (y), (x, y), (y, x); results carrying the reserved label names _result / _test_name; results sharing a test name across tasks (9 cases); verdict re-read after looking at classify[status] for every status',
+                     '{absent, 0, 1}, split over 1 or 2 tasks, with / without a task lacking results; label selections (x), (y), (x, y), (y, x); results carrying the reserved label names _result / _test_name; results sharing a test name across tasks (9 cases); verdict re-read after looking at classify[status] for every status; every summary test evaluated twice and fingerprinted before its evaluation',
             'samples': [{'results': [[True, {'x': 'x0'}], [False, {'x': 'x0', 'y': 'y1'}]], 'by_labels': ['x']}]}
 
 
